@@ -398,6 +398,11 @@ def check(case):
             require(np.array_equal(got_d, got), "labels-dataset",
                     f"LinearPsmDataset._update_labels differs (label dtype {case['ldtype']}, copy_data={copy})")
             require(np.array_equal(np.asarray(ds.targets).astype(bool), tb), "labels-dataset", "dataset.targets differ from the label column")
+            # the same through the dataset with the scores in the case's own dtype (a feature column is handed over as it is stored:
+            # small signed / unsigned integers, float32)
+            got_r = guarded(ds._update_labels, scores.copy(), thr, desc, sig="LinearPsmDataset._update_labels")
+            require(np.array_equal(got_r, got), "labels-dataset",
+                    f"LinearPsmDataset._update_labels with scores of dtype {scores.dtype} and desc={desc} differs from the float64 result")
             counters["labels_compared"] += n
             if not copy:
                 classes.append("dataset-copy_data-false")
